@@ -284,6 +284,22 @@ func mutJobCase(c *PRNG, res *Result, sc *SimContext) {
 	if accepted != (len(refRes.Errors) == 0) {
 		hit("C16/webhook-and-mutator-disagree-on-admission", fmt.Sprintf("allowed=%v, mutator errors %v", accepted, refRes.Errors))
 	}
+	_, userLabel := typed.Labels[jobconfig.LabelKeyJobConfigUID]
+	if !accepted && op == admissionv1.Create && typed.Spec.ConfigName != "" && len(typed.OwnerReferences) == 0 && !userLabel {
+		// a Job created with configName gets the owner reference and the UID label FROM the
+		// JobConfig: being refused because of that very label / reference is never the user's fault
+		for _, x := range jcs {
+			if x.Name != typed.Spec.ConfigName {
+				continue
+			}
+			for _, e := range refRes.Errors {
+				if strings.Contains(e.Field, jobconfig.LabelKeyJobConfigUID) || strings.Contains(e.Field, "ownerReferences") {
+					hit("C16/configname-job-refused-for-the-label-it-is-given", fmt.Sprintf("Job with configName %q refused: %v (JobConfig uid %s, template labels %v)", x.Name, e, x.UID, x.Spec.Template.Labels))
+					break
+				}
+			}
+		}
+	}
 	if accepted {
 		patched, perr := applyPatch(raw, resp)
 		if perr != nil {
